@@ -75,6 +75,7 @@ def showRes (op : Op) : Res → String
 
 def volOpen (bytes : Bytes) (ops : List Op) : String :=
   match Vol.open bytes with
+  | .error (.err .alloc) => "err:alloc"
   | .error e => "open:" ++ showE e
   | .ok v =>
     let rs := Obj.run { view := v, rpos := 0 } ops
